@@ -271,7 +271,11 @@ func (a *arrayObject) setOwnStr(name unistring.String, val Value, throw bool) bo
 				a.val.runtime.typeErrorResult(throw, "length is not writable")
 				return false
 			}
-			return a.setLength(a.val.runtime.toLengthUint32(val), throw)
+			l := a.val.runtime.toLengthUint32(val)
+			if cur := curStdArray(a.val, a); cur != nil {
+				return cur.setOwnStr(name, intToValue(int64(l)), throw)
+			}
+			return a.setLength(l, throw)
 		} else {
 			return a.baseObject.setOwnStr(name, val, throw)
 		}
@@ -388,6 +392,19 @@ func (a *arrayObject) expand(idx uint32) bool {
 	return true
 }
 
+// curStdArray returns the current implementation of an array if it is no longer a: the user code run while a new
+// length value is converted may have switched the array between the dense and the sparse representation, after which
+// a is a stale copy. The caller must have converted the value, so that no more user code runs.
+func curStdArray(val *Object, a objectImpl) objectImpl {
+	switch self := val.self.(type) {
+	case *arrayObject, *sparseArrayObject:
+		if self != a {
+			return self
+		}
+	}
+	return nil
+}
+
 func (r *Runtime) defineArrayLength(prop *valueProperty, descr PropertyDescriptor, setter func(uint32, bool) bool, throw bool) bool {
 	var newLen uint32
 	ret := true
@@ -468,6 +485,12 @@ func (a *arrayObject) defineOwnPropertyStr(name unistring.String, descr Property
 		return a._defineIdxProperty(idx, descr, throw)
 	}
 	if name == "length" {
+		if descr.Value != nil {
+			descr.Value = intToValue(int64(a.val.runtime.toLengthUint32(descr.Value)))
+			if cur := curStdArray(a.val, a); cur != nil {
+				return cur.defineOwnPropertyStr(name, descr, throw)
+			}
+		}
 		return a.val.runtime.defineArrayLength(a.getLengthProp(), descr, a.setLength, throw)
 	}
 	return a.baseObject.defineOwnPropertyStr(name, descr, throw)
